@@ -38,7 +38,7 @@ PROPS = {
              eps=('blacklist', 'refund', 'unblacklist', 'confirm'), cats=('status', 'bal'),
              views=('blacklisted', 'confirmed', 'utStatus'), coq=('Proofs/Blacklist.v',)),
     'C11': P('guarantees honoured with own tickets only', eps=('extra',), cats=('status', 'ret'), rng='eps',
-             views=('winIds', 'utStatus', 'nrWinning'), coq=('Proofs/Guaranteed.v', 'Proofs/GuaranteedLoop.v', 'Proofs/Resume2.v', 'Proofs/Resume4.v')),
+             views=('winIds', 'utStatus', 'nrWinning'), coq=('Proofs/Guaranteed.v', 'Proofs/GuaranteedLoop.v', 'Proofs/Resume2.v', 'Proofs/Resume4.v', 'Proofs/SetupGt.v', 'Proofs/SetupNgt.v')),
     'C12': P('W + R = K through allocation / blacklist / un-blacklist; no wrap; leftovers',
              eps=('addTickets', 'blacklist', 'refund', 'unblacklist', 'deposit', 'extra'), cats=('status', 'panic', 'wrap'),
              rng=True, views=('nrWinning',), coq=('Proofs/Reserve.v', 'Proofs/Leftover.v', 'Proofs/SetupVested.v'),
